@@ -58,9 +58,36 @@ def lazy_iterate_dicts(dict_of_iterables):
 
 
 def generate_combinations(generators_dict):
-    """Yield all combinations of generator values as keyword arguments"""
-    for combination in itertools.product(*generators_dict.values()):
-        yield dict(zip(generators_dict.keys(), combination))
+    """
+    Yield all combinations of generator values as keyword arguments, in the order of itertools.product, but pulling
+    from the generators only on demand (itertools.product drains every generator before its first combination).
+    """
+    keys = list(generators_dict.keys())
+    iterators = [iter(generator) for generator in generators_dict.values()]
+    pulled_values = [[] for _ in keys]
+
+    def values_of(index):
+        # replay what was already pulled from this generator, then continue pulling from it.
+        position = 0
+        while True:
+            if position == len(pulled_values[index]):
+                try:
+                    pulled_values[index].append(next(iterators[index]))
+                except StopIteration:
+                    return
+            yield pulled_values[index][position]
+            position += 1
+
+    def combine(index):
+        if index == len(keys):
+            yield ()
+            return
+        for value in values_of(index):
+            for rest in combine(index + 1):
+                yield (value,) + rest
+
+    for combination in combine(0):
+        yield dict(zip(keys, combination))
 
 
 def filter_data(data, selected_indices):
